@@ -24,10 +24,15 @@ Y  == << "y" >>
 YT == << "y", "_", "t", "o", "t", "a", "l" >>      \* y_total: contains y; LAG_y_total contains LAG_y
 MY == << "m", "y" >>                               \* my: ends in y
 GAP == << "g", "a", "p" >>
-Sch(id, nms, grid, excls) == [id |-> id, names |-> nms, kinds |-> [i \in 1..Len(nms) |-> "solved"],
+NoT(nms) == [i \in 1..Len(nms) |-> "none"]
+Sch(id, nms, grid, excls) == [id |-> id, names |-> nms, kinds |-> [i \in 1..Len(nms) |-> "solved"], tdep |-> NoT(nms),
                               grid |-> grid, excls |-> excls]
+(* schemes with series whose equations mention the time axis *)
+SchT(id, nms, tds, grid, excls) == [id |-> id, names |-> nms, kinds |-> [i \in 1..Len(nms) |-> "solved"], tdep |-> tds,
+                                    grid |-> grid, excls |-> excls]
+MC_Trend == { Cl("pL", "pL", "large"), Cl("nL", "nL", "large") }
 (* schemes with a decorative series: an affine function of the solved series before it (gap = x1 - target) *)
-SchK(id, nms, kds, grid, excls) == [id |-> id, names |-> nms, kinds |-> kds, grid |-> grid, excls |-> excls]
+SchK(id, nms, kds, grid, excls) == [id |-> id, names |-> nms, kinds |-> kds, tdep |-> NoT(nms), grid |-> grid, excls |-> excls]
 (* classes a solved series can end in and still pass the test, at a large level and at a small one, and one that fails *)
 MC_Pass == { Cl("pL", "pL", "rel_small"), Cl("nL", "nL", "rel_small"), Cl("pL", "pL", "small"),
              Cl("nL", "nL", "small"), Cl("pL", "pL", "zero"), Cl("pL", "pL", "large") }
@@ -40,28 +45,35 @@ MC_SchemesQuick == {
     Sch(3, << Y, YT >>,  << MC_Few, MC_Few >>,     { {YT}, {Y} }),
     Sch(4, << YT, Y >>,  << MC_Few3, MC_Few >>,    { {YT} }),
     Sch(5, << Y >>,      << AllClasses >>,         { {YT}, {MY} }),         \* the excluded name is no series at all
-    SchK(6, << X1, GAP >>, << "solved", "decorative" >>, << MC_Pass, MC_Few >>, { {}, {GAP} }) }
+    SchK(6, << X1, GAP >>, << "solved", "decorative" >>, << MC_Pass, MC_Few >>, { {}, {GAP} }),
+    SchT(7, << X1 >>,     << "settled" >>,         << AllClasses >>,       { {} }),
+    SchT(8, << X1, X2 >>, << "none", "settled" >>, << MC_Pass, MC_Few >>,  { {} }),
+    SchT(9, << X1, X2 >>, << "none", "trend" >>,   << MC_Pass, MC_Trend >>, { {}, {X2} }) }
 
 MC_SchemesThorough == {
     Sch(1, << X1, X2 >>, << AllClasses, AllClasses >>, AtMostOne(<< X1, X2 >>)),
     Sch(2, << Y, YT >>,  << AllClasses, MC_Few >>,     { {YT}, {Y}, {Y, YT} }),
     Sch(3, << YT, Y >>,  << MC_Few, AllClasses >>,     { {YT}, {MY} }),
-    SchK(4, << X1, GAP >>, << "solved", "decorative" >>, << MC_Pass, AllClasses >>, { {}, {GAP} }) }
+    SchK(4, << X1, GAP >>, << "solved", "decorative" >>, << MC_Pass, AllClasses >>, { {}, {GAP} }),
+    SchT(5, << X1, X2 >>, << "settled", "settled" >>, << AllClasses, MC_Few >>,  { {}, {X2} }),
+    SchT(6, << X1, X2 >>, << "trend", "none" >>,      << MC_Trend, AllClasses >>, { {}, {X1} }) }
 (* (never excluded: a variable that a non-excluded one is computed from - see c15.py, assumptions) *)
 
 MC_SchemesThree == {
     Sch(1, << X1, X2, X3 >>, << AllClasses, MC_Few, MC_Few3 >>, AtMostOne(<< X1, X2, X3 >>)),
     Sch(2, << Y, X1, YT >>,  << MC_Few, MC_Few3, MC_Few3 >>,    { {YT}, {Y}, {X1, YT} }),
-    SchK(3, << X1, GAP, X2 >>, << "solved", "decorative", "solved" >>, << MC_Pass, MC_Few, MC_Few3 >>, { {}, {X2} }) }
+    SchK(3, << X1, GAP, X2 >>, << "solved", "decorative", "solved" >>, << MC_Pass, MC_Few, MC_Few3 >>, { {}, {X2} }),
+    SchT(4, << X1, X2, X3 >>, << "settled", "none", "trend" >>, << MC_Few, MC_Few3, MC_Trend >>, { {}, {X3} }) }
 
 MC_SchemesFull3 == {
     Sch(1, << X1, X2, X3 >>, << AllClasses, AllClasses, AllClasses >>, AtMostOne(<< X1, X2, X3 >>)),
     Sch(2, << Y, X1, YT >>,  << AllClasses, AllClasses, MC_Few >>,     { {YT} }),
-    SchK(3, << X1, GAP, X2 >>, << "solved", "decorative", "solved" >>, << AllClasses, AllClasses, MC_Few >>, { {}, {GAP} }) }
+    SchK(3, << X1, GAP, X2 >>, << "solved", "decorative", "solved" >>, << AllClasses, AllClasses, MC_Few >>, { {}, {GAP} }),
+    SchT(4, << X1, X2, X3 >>, << "settled", "none", "trend" >>, << AllClasses, AllClasses, MC_Trend >>, { {}, {X3} }) }
 
 (* every maximal behaviour is printed once, as JSON, for the replay driver *)
 Emit == Terminal =>
-          PrintT(<< "BEH", ToJson([n |-> n, names |-> names, kinds |-> kinds, option |-> option, excluded |-> excluded,
+          PrintT(<< "BEH", ToJson([n |-> n, names |-> names, kinds |-> kinds, tdep |-> tdep, option |-> option, excluded |-> excluded,
                                    sid |-> sid, wf |-> wf, runres |-> runres,
                                    cls |-> cls, phase |-> phase, exc |-> exc]) >>)
 =============================================================================
